@@ -91,6 +91,17 @@ SETS_SERVICE = [
 ]
 
 
+ENV_VALUES = ("envvalue", "othervalue")
+
+
+def subst_env(x: Any, val: str) -> Any:
+    if isinstance(x, dict):
+        return {k: subst_env(v, val) for k, v in x.items()}
+    if isinstance(x, list):
+        return [subst_env(v, val) for v in x]
+    return val if x == "envvalue" else x
+
+
 def ref_merge(a: Any, b: Any) -> dict:
     out = dict(a or {})
     for k, v in (b or {}).items():
@@ -158,7 +169,8 @@ def cases(tier: str) -> list:
         svc_files += [p for p in itertools.permutations(["S1", "S2", "S4", "TOP"], 3)]
     else:
         # three and four files (what the middle files set must survive): a few orders without --set
-        comp_files += [("D1", "D2", "D3"), ("D3", "D2", "D1"), ("D9", "D4", "D2"), ("D1", "D2", "D4", "D3")]
+        comp_files += [("D1", "D2", "D3"), ("D3", "D2", "D1"), ("D9", "D4", "D2"), ("D1", "D2", "D4", "D3"),
+                       ("D1", "D2", "D1"), ("D3", "D1", "D3", "D2")]  # (a file may be listed twice: every occurrence is merged where it stands)
         svc_files += [("S1", "S4", "TOP"), ("TOP", "S2", "S4")]
     for files in comp_files:
         setsets: list[tuple] = [()] + [(s,) for s in SETS_COMPONENT]
@@ -255,7 +267,10 @@ class C16:
         old = cli.run_application
         cli.run_application = rec  # type: ignore[assignment]
         old_env = os.environ.get("ASPHALT_SERVICE")
-        os.environ["VK_ENVVAR"] = "envvalue"
+        # (the variable's value changes from one invocation to the next within this process: it is read when the file is loaded)
+        self._env_n = getattr(self, "_env_n", 0) + 1
+        os.environ["VK_ENVVAR"] = ENV_VALUES[self._env_n % 2]
+        case["_envval"] = ENV_VALUES[self._env_n % 2]
         os.environ.pop("VK_NOT_SET", None)
         if case["env"] is None:
             os.environ.pop("ASPHALT_SERVICE", None)
@@ -294,6 +309,8 @@ class C16:
                 if isinstance(exp, str) and exp.startswith("<undefined"):
                     continue
                 calls, err = self.invoke(paths, case)
+                if exp != FAIL and case.get("_envval") != "envvalue":
+                    exp = subst_env(exp, case["_envval"])
                 s["evaluations"] += 1
                 if sum(1 for x in (case["files"], case["sets"], case["service"] or case["env"]) if x) >= 2:
                     s["nontrivial"] += 1
